@@ -63,6 +63,17 @@ def _matrix(name, t):
     C = R + 1j * I
     kind = name.rstrip('01')
     bits = [int(c) for c in name[len(kind):]]
+    if kind in ('rzp', 'rzc', 'rzb', 'czb'):
+        # ZERO diagonal entries on a non-singular matrix: a dof whose row and column each hold a single entry that is NOT
+        # the diagonal one is coupled (permutation-like and cyclic blocks, a dof prescribed by a Lagrange multiplier)
+        d = np.diag(R).copy()
+        if kind == 'rzp':
+            return np.array([[0.0, R[0, 1], 0.0], [R[1, 0], 0.0, 0.0], [0.0, 0.0, d[2]]])
+        if kind == 'rzc':
+            return np.array([[0.0, R[0, 1], 0.0], [0.0, 0.0, R[1, 2]], [R[2, 0], 0.0, 0.0]])
+        if kind == 'rzb':
+            return np.array([[d[0], R[0, 1], 1.0], [R[0, 1], d[1], 0.0], [1.0, 0.0, 0.0]])
+        return np.array([[C[0, 0], C[0, 1], 1.0], [C[0, 1], C[1, 1], 0.0], [1.0, 0.0, 0.0]])     # complex symmetric
     if kind in ('rz', 'rzs'):
         # off-diagonal entries that CANCEL in the row and in the column of a dof (+a and -a couplings): the dof is
         # coupled although its signed row and column sums are zero
@@ -108,14 +119,18 @@ def all_matrix_names():
         s = ''.join(map(str, bits))
         names += ['rs' + s, 'ch' + s, 'cs' + s]
     names.sort(key=lambda nm: (nm.count('1'), len(nm), nm))
-    return names + ['rz111111', 'rzs111']
+    return names + ['rz111111', 'rzs111', 'rzp1', 'rzc1', 'rzb1', 'czb1']
 
 
 def other_class(name):
     kind = name.rstrip('01')
     bits = name[len(kind):]
-    if kind == 'rz':
+    if kind in ('rz', 'rzp', 'rzc'):
         return ['c111111', 'rs111']
+    if kind == 'rzb':
+        return ['r111111', 'ch111']
+    if kind == 'czb':
+        return ['c111111', 'ch111']
     if kind == 'rzs':
         return ['r111111', 'ch111']
     if kind == 'r':
@@ -456,10 +471,10 @@ def execute(case):
 
 def bounds(tier, seed):
     if tier == 'quick':
-        return {'n': 3, 'matrices': 152, 'rhs': len(RHS_FULL), 'modes': 3,
+        return {'n': 3, 'matrices': len(all_matrix_names()), 'rhs': len(RHS_FULL), 'modes': 3,
                 'histories': '[S], [S,S] over the full 12-entry rhs alphabet; [S,U,S] with 4 update kinds and [S, S with initial guess (zeros | previous answer)] over the 6-entry alphabet', 'inner': ['ref', 'lu(diagonal-free subset)'],
                 'table': seed % len(VALS)}
-    return {'n': 3, 'matrices': 152, 'rhs': len(RHS_FULL), 'modes': 3,
+    return {'n': 3, 'matrices': len(all_matrix_names()), 'rhs': len(RHS_FULL), 'modes': 3,
             'histories': 'levels in this order: depth2 (ref, LU subset); [S,S,S]; [S,U,S,S],[S,S,U,S] on the reduced rhs '
                          'alphabet; depth2 with flags given; depth2 with LU/QR/SparseLU inner solvers; [S,U,S,U,S]', 'inner': ['ref', 'lu', 'qr', 'splu'], 'table': seed % len(VALS)}
 
@@ -496,7 +511,7 @@ def generate(tier, seed):
                        'tails': [['X']], 'rhs_alphabet': RHS_SMALL}
     yield {'__level__': 'depth2/magnitudes'}
     mag_mats = [nm for nm in names if nm in ('r111111', 'rs111', 'c111111', 'ch111', 'cs111', 'r100100', 'r000001', 'rs001',
-                                             'rz111111', 'rzs111')]
+                                             'rz111111', 'rzs111', 'rzp1', 'rzc1', 'rzb1', 'czb1')]
     for nm in (names if tier != 'quick' else mag_mats):
         for op1 in solve_ops(RHS_SCALE):
             yield {'mat': nm, 'table': t, 'inner': 'ref', 'flags': 'none', 'prefix': [op1],
